@@ -35,6 +35,15 @@ var solvers = []solverSpec{
 	}},
 }
 
+// coverSolver: z3 5.1 with trigger-based instantiation only.  A cover asks whether the assumptions at a point are
+// contradictory; with model-based instantiation on, z3 keeps looking for a model of the quantified heap axioms and
+// times out without an answer.  Without it the query ends as soon as the triggers are saturated: `unsat` (the point is
+// unreachable or the assumptions contradictory), `sat`, or `unknown (incomplete quantifiers)` — no contradiction
+// derivable by the instantiations the proofs themselves rest on, reported as "consistent".
+var coverSolver = solverSpec{"z3-5.1.0 (e-matching)", "z3-new", func(t, seed int) []string {
+	return []string{fmt.Sprintf("-T:%d", t), "smt.mbqi=false", "smt.auto_config=false", fmt.Sprintf("smt.random_seed=%d", seed), "-smt2"}
+}}
+
 func expandConstArr(c string, cvc5 bool) string {
 	f := strings.Split(strings.TrimPrefix(c, ";;CONSTARR "), "\t")
 	if len(f) != 4 {
@@ -73,6 +82,9 @@ func (o *Obligation) scriptFor(w *World, cover bool, withModel bool, cvc5 bool) 
 	b.WriteString(w.so.prelude(body.String()))
 	b.WriteString(body.String())
 	b.WriteString("(check-sat)\n")
+	if cover {
+		b.WriteString("(get-info :reason-unknown)\n")
+	}
 	if withModel {
 		b.WriteString("(get-model)\n")
 	}
@@ -212,6 +224,18 @@ func dischargeOne(w *World, i int, o *Obligation, opt dischargeOpts) {
 	answered := 0
 	cvcFile := strings.TrimSuffix(file, ".smt2") + ".cvc5.smt2"
 	raced := false
+	if isCover {
+		st, out, secs := runSolver(coverSolver, file, 5, opt.seed)
+		total += secs
+		if st == "unknown" && strings.Contains(out, "incomplete") {
+			st = "consistent"
+		}
+		outputs = append(outputs, fmt.Sprintf("[%s] %s (%.2fs)", coverSolver.name, st, secs))
+		// anything else (a matching loop that does not saturate in time) stays undecided: the model-building
+		// configuration does not answer these either
+		o.Status, o.Solver, o.Seconds, o.Output = st, coverSolver.name, total, strings.Join(outputs, "\n")
+		return
+	}
 	if !opt.cross && !isCover {
 		// quick tier: z3 5.1 first on its own for a moment (most goals take milliseconds), then race it against cvc5
 		st, out, secs := runSolver(solvers[0], file, 1, opt.seed)
